@@ -103,6 +103,11 @@ def run(cr: CheckRun) -> None:
     for e in (rnd2.sample(blk, min(len(blk), 32)) if quick else blk[::3]):
         rid += 1
         items.append((rid, e, rnd.getrandbits(30), "block"))
+    # block lengths above 32768 (destination external, so that the instruction does not overwrite its own addressing registers)
+    hug = [e for e in blk if e[0] not in c04.PRE_SET and en.opcode_of(e) in (0xEB, 0xDB)]
+    for e in rnd2.sample(hug, min(len(hug), 2 if quick else 8)):
+        rid += 1
+        items.append((rid, e, rnd.getrandbits(30), "huge"))
     nsh = vlib.NCPU * 2
     results = vlib.pmap(_job, [(i, items[i::nsh]) for i in range(nsh)])
     cr.mark("executions")
